@@ -512,7 +512,7 @@ package websocket
 //   compression writer, whose g_inner ghost names it).
 //@ ghostfield io.WriteCloser.g_inner ref
 //@ pred curW(c) := ite(c.writer == nil, asPtr(nilref(), "*messageWriter"), ite(typeIs(c.writer, "*messageWriter"), asType(c.writer, "*messageWriter"), asPtr(c.writer.g_inner, "*messageWriter")))
-//@ pred WConn(c) := c.conn != nil && !held(c.mu) && c.writeBufSize >= 139 && 0 - 2 <= c.compressionLevel && c.compressionLevel <= 9 && c.g_acc >= 0 && c.g_out >= 0 && \
+//@ pred WConn(c) := c.conn != nil && !held(c.mu) && imp(c.writePool != nil, c.writeBufSize >= 139) && 0 - 2 <= c.compressionLevel && c.compressionLevel <= 9 && c.g_acc >= 0 && c.g_out >= 0 && \
 //@     ((region(c.writeBuf) == 0 && len(c.writeBuf) == 0 && c.writePool != nil) || (region(c.writeBuf) > 0 && len(c.writeBuf) >= 139 && off(c.writeBuf) == 0 && live(c.writeBuf))) && \
 //@     imp(c.g_wst && c.writer == nil, c.writeErr != nil)
 //@ pred WOpen(c) := imp(c.writer != nil, curW(c) != nil && ref(curW(c)) < alloc() && curW(c).c == c && curW(c).err == nil && WBuf(curW(c)))
@@ -1024,3 +1024,35 @@ package websocket
 //@ func compressNoContextTakeover
 //@ tags C15 C07
 //@ requires 0 - 2 <= level && level <= 9
+
+// ---------------------------------------------------------------------------
+// prepared.go
+
+//@ func (*PreparedMessage).frame
+//@ tags C19
+//@ requires 0 - 2 <= key.compressionLevel && key.compressionLevel <= 9 && pm.frames != nil && region(pm.data) >= 0 && region(pm.data) < alloc() && live(pm.data)
+//@ ensures[C19.type] r0 == pm.messageType
+//@ ensures[C19.own] imp(!old(haskey(pm.frames, key)) && r2 == nil, region(r1) == 0 || region(r1) >= old(alloc()))
+
+// The rendering closure run under the frame's sync.Once.
+//@ func (*PreparedMessage).frame$1
+//@ tags C19
+//@ requires 0 - 2 <= key.compressionLevel && key.compressionLevel <= 9 && pm != nil && region(pm.data) >= 0 && region(pm.data) < alloc() && live(pm.data) && frame != nil
+//@ ghost before call:WriteMessage#1: c.g_app :| forall(i, 0, len(pm.data), pm.data[i] == c.g_app[c.g_acc + i])
+//@ assert at call:WriteMessage#1[C19.conn]: arg0.isServer == key.isServer && arg0.compressionLevel == key.compressionLevel && iff(arg0.newCompressionWriter != nil, key.compress) && \
+//@     arg0.enableWriteCompression && arg1 == pm.messageType && same(arg2, pm.data) && arg0.writer == nil && arg0.writePool == nil
+
+//@ func (*Conn).WritePreparedMessage
+//@ tags C09 C10 C19
+//@ requires !held(c.mu) && c.conn != nil && pm != nil && pm.frames != nil && 0 - 2 <= c.compressionLevel && c.compressionLevel <= 9 && region(pm.data) >= 0 && region(pm.data) < alloc() && live(pm.data)
+//@ assert at call:frame#1[C19.key]: arg1.isServer == c.isServer && arg1.compressionLevel == c.compressionLevel && \
+//@     iff(arg1.compress, c.newCompressionWriter != nil && c.enableWriteCompression && isDataT(pm.messageType))
+//@ assert at call:write#1[C19.type]: arg1 == pm.messageType
+//@ assert at call:write#1[C10.deadline]: arg2 == c.writeDeadline
+
+//@ func NewPreparedMessage
+//@ tags C19
+//@ requires region(data) >= 0 && region(data) < alloc() && live(data)
+//@ unchecked slice#1: that the rendered server frame is at least as long as the payload needs a model of bytes.Buffer contents; not part of C19
+//@ ensures[C19.copy] imp(r1 == nil && region(data) > 0, region(r0.data) != region(data))
+//@ assert at call:frame#1[C19.newkey]: arg1.isServer && !arg1.compress && arg0.messageType == messageType && same(arg0.data, data)
